@@ -1,0 +1,20 @@
+//go:build verif
+// +build verif
+
+package service
+
+import (
+	sdk "github.com/cosmos/cosmos-sdk/types"
+)
+
+// EndBlockHook, when set by a verification harness, is called after each
+// sub-step of EndBlocker: stage "expire" after one expired batch was handled,
+// "mid" between the expiry phase and the new-batch phase, "start" after one
+// new-batch entry was handled. It must not modify state.
+var EndBlockHook func(ctx sdk.Context, stage string, requestContextID []byte)
+
+func endBlockHook(ctx sdk.Context, stage string, requestContextID []byte) {
+	if EndBlockHook != nil {
+		EndBlockHook(ctx, stage, requestContextID)
+	}
+}
